@@ -105,3 +105,43 @@ func verifC20BucketReach() {
 	verifObserve("bucket", id, got, ok, len(b1))
 	verifAssert(id != 4242, "reach")
 }
+
+// C20 (prefix enumeration over a bucket): the real TrieBucket.Suggest (one prefix iterator per block,
+// merged in key order) over two blocks with symbolic key bytes - {a·x, a·y} and {a·z, "b"} - equals
+// the sorted list of the bucket's keys that start with the prefix, cut at the limit.
+func verifC20BucketSuggest() {
+	x, y, z := verifNondetByte("x"), verifNondetByte("y"), verifNondetByte("z")
+	verifAssume(x < y && z != x && z != y)
+	verifAssume(x >= 'a' && y <= 'z' && z >= 'a' && z <= 'z')
+	k1, k2, k3 := []byte{'a', x}, []byte{'a', y}, []byte{'a', z}
+	var bufA, bufB bytes.Buffer
+	verifAssume(NewTrieBucketBuilder(100, &bufA).Write([][]byte{k1, k2}, []uint32{1, 2}) == nil)
+	verifAssume(NewTrieBucketBuilder(100, &bufB).Write([][]byte{k3, []byte("b")}, []uint32{3, 4}) == nil)
+	bucket := NewTrieBucketWithBlockSize(100)
+	verifAssert(bucket.Unmarshal(append([]byte{}, bufA.Bytes()...)) == nil && bucket.Unmarshal(append([]byte{}, bufB.Bytes()...)) == nil, "the flushed blocks load")
+	// the reference: a·x < a·y, a·z somewhere among them, "b" last
+	var sorted [][]byte
+	switch {
+	case z < x:
+		sorted = [][]byte{k3, k1, k2}
+	case z < y:
+		sorted = [][]byte{k1, k3, k2}
+	default:
+		sorted = [][]byte{k1, k2, k3}
+	}
+	limit := 1 + verifChoose("limit", 4)
+	prefix := []string{"a", ""}[verifChoose("prefix", 2)]
+	want := sorted
+	if prefix == "" {
+		want = append(append([][]byte{}, sorted...), []byte("b"))
+	}
+	if len(want) > limit {
+		want = want[:limit]
+	}
+	got := bucket.Suggest(prefix, limit)
+	verifAssert(len(got) == len(want), "prefix enumeration over the bucket returns every key with the prefix, up to the limit")
+	for i := 0; i < len(got) && i < len(want); i++ {
+		verifAssert(got[i] == string(want[i]), "prefix enumeration over the bucket returns the keys in order, each once")
+	}
+	verifReach("end")
+}
